@@ -252,7 +252,7 @@ def run_case(src, config, keep_body, ranges, case, via='lib', chunked=False):
             except Exception as e:
                 raise Violation('writing a minified .p8 through file.to_file raised %r -- %s' % (e, show(src, 200)),
                                 case, 'raises')
-            out = reffmt.read_p8(open(outp, 'rb').read())['code']
+            out = reffmt.read_written(open(outp, 'rb').read(), case)['code']
             return compare_tokens(src, out, case, keep_all=(config == 'keep_all'), ranges=ranges,
                                   what='file.to_file(.p8, LuaMinifyTokenWriter)')
         if via == 'luamin_two_carts':
@@ -269,7 +269,7 @@ def run_case(src, config, keep_body, ranges, case, via='lib', chunked=False):
             outp = os.path.join(td, 'second_fmt.p8')
             if rc != 0 or not os.path.exists(outp):
                 raise Violation('`p8tool luamin` on two carts returned %r / wrote no second_fmt.p8' % rc, case, 'cli')
-            out = reffmt.read_p8(open(outp, 'rb').read())['code']
+            out = reffmt.read_written(open(outp, 'rb').read(), case)['code']
             return compare_tokens(src, out, case, keep_all=(config == 'keep_all'), ranges=ranges,
                                   what='`p8tool luamin` (second of two carts)')
         if via in ('luamin_p8', 'luamin_png'):
@@ -291,9 +291,9 @@ def run_case(src, config, keep_body, ranges, case, via='lib', chunked=False):
                 raise Violation('`p8tool luamin` returned %r / wrote no %s' % (rc, os.path.basename(outp)), case, 'cli')
             raw = open(outp, 'rb').read()
             if ext == '.p8':
-                out = reffmt.read_p8(raw)['code']
+                out = reffmt.read_written(raw, case)['code']
             else:
-                r = reffmt.read_p8png(raw)
+                r = reffmt.read_written(raw, case, png=True)
                 out = reffmt.strip_shim(r['code']) if r['code_kind'] == 'compressed' else r['code']
             src_in = src if ext == '.p8' else src
             return compare_tokens(src_in, out, case, keep_all=(config == 'keep_all'), ranges=ranges,
@@ -309,7 +309,7 @@ def run_case(src, config, keep_body, ranges, case, via='lib', chunked=False):
                 raise Violation('`p8tool build --lua-minify` raised %r -- %s' % (e, show(src, 200)), case, 'cli-raises')
             if rc != 0 or not os.path.exists(outp):
                 raise Violation('`p8tool build --lua-minify` returned %r' % rc, case, 'cli')
-            out = reffmt.read_p8(open(outp, 'rb').read())['code']
+            out = reffmt.read_written(open(outp, 'rb').read(), case)['code']
             return compare_tokens(src, out, case, keep_all=(config == 'keep_all'), ranges=ranges,
                                   what='`p8tool build --lua-minify`')
     raise ValueError(via)
